@@ -58,11 +58,6 @@ int main(int argc, char** argv) {
     sup.corpus_share = 0.45;
     mjModel* m = sup.get(r, go, &mdesc, nullptr, 200);
     if (!m) { end_case(); continue; }
-    // (preparation only) with a flex and the mid-phase disabled, mj_collision's all-to-all branch reads m->body_geomnum[] with a
-    // flex id (engine_collision_driver.c, "process bodyflex pair"): past the array, into padding the ASan build poisons.  The value
-    // is unused there and no listed property covers it (recorded as an observation in DESIGN.md 8.2); the stepping below only
-    // prepares a state for the scene, so the flag is cleared instead of letting that report end the shard.
-    if (m->nflex) m->opt.disableflags &= ~mjDSBL_MIDPHASE;
     mjData* d = mu::make_data(m, s);
     // ---- state: a seeded number of steps so that contacts, forces, islands, sleeping bodies exist
     int nstep = r.chance(0.2) ? 0 : r.range(1, 40);
@@ -112,6 +107,10 @@ int main(int argc, char** argv) {
       for (long i = 0; i < maxexec - 82; i++) caps.push_back(r.below(N + 1));
     }
     caps.push_back(N + 1); caps.push_back(N + 7);
+    int n_invisible = 0;   // model geoms and sites whose effective alpha (own rgba over material) is 0
+    { auto inv = [&](const float* rgba, int mat) { bool own = rgba[0] != 0.5f || rgba[1] != 0.5f || rgba[2] != 0.5f || rgba[3] != 1.0f || mat < 0; return (own ? rgba[3] : m->mat_rgba[4 * mat + 3]) == 0; };
+      for (int i = 0; i < m->ngeom; i++) n_invisible += inv(m->geom_rgba + 4 * i, m->geom_matid[i]);
+      for (int i = 0; i < m->nsite; i++) n_invisible += inv(m->site_rgba + 4 * i, m->site_matid[i]); }
     int prefix_ok = 0, prefix_bad = 0;
     for (int k : caps) {
       char sk[32]; snprintf(sk, sizeof sk, " maxgeom=%d/%d", k, N); g_scenario = mdesc + sc + sk;
@@ -122,7 +121,10 @@ int main(int argc, char** argv) {
       if (a.ngeom < 0) violation("capacity-exceeded", "negative ngeom %d", a.ngeom);
       bool overflow = N > k;
       if (overflow && a.status == 0) violation("overflow-not-reported", "uncapped scene has %d geoms, maxgeom=%d, but scn.status is 0 (ngeom=%d)", N, k, a.ngeom);
-      if (!overflow && a.status != 0) violation("spurious-overflow", "uncapped scene has %d geoms, maxgeom=%d, but scn.status=%d", N, k, a.status);
+      // the converse direction (status set although nothing was dropped) is not demanded by the statement; it is still judged where the engine
+      // cannot have needed more slots than it filled: elements that are invisible by their own colour take a slot and give it back, so
+      // they count as demand here (a scene that fits exactly may report "full" when the last element tried is such an invisible one)
+      if (!overflow && k >= N + n_invisible && a.status != 0) violation("spurious-overflow", "uncapped scene has %d geoms, maxgeom=%d (and %d elements invisible by colour), but scn.status=%d", N, k, n_invisible, a.status);
       if (!overflow && a.ngeom != N) violation("nondeterministic", "maxgeom=%d >= %d geoms but the scene holds %d", k, N, a.ngeom);
       if (!overflow && N && memcmp(a.geoms.data(), ref.geoms.data(), sizeof(mjvGeom) * (size_t)N)) {
         int i = 0; while (i < N && !memcmp(&a.geoms[i], &ref.geoms[i], sizeof(mjvGeom))) i++;
@@ -187,6 +189,10 @@ int main(int argc, char** argv) {
         for (int c = 0; c < 3; c++) if (g->size[c] != es[c]) violation("unfaithful", "model geom %d (type %d): scene size[%d]=%.9g, model %.9g", i, m->geom_type[i], c, g->size[c], es[c]);
         int cat = m->body_weldid[m->geom_bodyid[i]] == 0 ? mjCAT_STATIC : mjCAT_DYNAMIC;
         if (g->category != cat) violation("unfaithful", "model geom %d: category %d, expected %d", i, g->category, cat);
+        { const float* rgba = m->geom_rgba + 4 * i; int mat = m->geom_matid[i];
+          bool own = rgba[0] != 0.5f || rgba[1] != 0.5f || rgba[2] != 0.5f || rgba[3] != 1.0f || mat < 0;
+          float alpha = own ? rgba[3] : m->mat_rgba[4 * mat + 3];
+          if (g->rgba[3] != alpha) violation("unfaithful", "model geom %d: scene alpha %.9g, the model's colour rule (own rgba over material) gives %.9g", i, g->rgba[3], alpha); }
       }
       count("faithful_scenes"); count("faithful_geoms_checked", expect.size());
     }
